@@ -1,14 +1,16 @@
 """C08 — Stim export is the in-order image of the circuit (DESIGN.md 7, C08)."""
 import copy
 from common import cz, cbool, cstr, clist, copt
+import libgen
 
 ID = 'C08'
-GEN_MODULES = ['Tables']
+GEN_MODULES = ['Tables', 'Ident', 'Classes']
 MODEL_TARGETS = ['coq/C08/Run.vo']
 PROOF_TARGETS = ['coq/C08/Proofs.vo']
 PROPS_FILE = 'coq/Props/C08.v'
 RUN_MODULE = 'QCE.C08.Run'
-COQ_HEADER = 'From QCE Require Import C08.Tree C08.Model C08.Spec.\nFrom Gen Require Import Tables.'
+COQ_HEADER = ('From Gen Require Import Ident Classes Tables.\nFrom QCE Require Import Core.Model Core.Run Lib.Run.\n'
+              'From QCE Require Import C08.Tree C08.Model C08.Spec.')
 IMPL = 'harness/impl/c08_impl.py'
 SHARD = 60
 IMPL_KW = {'shards': 8}
@@ -16,24 +18,33 @@ TRUSTED = ['Gen/Tables.v (operation classes, channel ids, Stim factory table, th
            'the walk StimCircuitFactoryManager.construct and the part of Stim it uses (append/+=/* with fusion and REPEAT merging, flattened(), '
            'num_measurements, target/argument validation) are hand-written models (C08/Model.v), tied by the correspondence run',
            'the documented gate of each class and the meaning of detector targets (C08/Spec.v) are written by hand, independently of the tables',
-           'listing order itself (get_node_iterator) is taken from the implementation: the driver serialises the listing tree']
+           'listing order itself (get_node_iterator) is taken from the implementation: the driver serialises the listing tree',
+           'library cases: Lib/Run.v case format and Core model (agree_lib), harness/impl/lib_impl.py']
 ASSUMPTIONS = ['"identical program" / "instruction by instruction" is read modulo Stim\'s own normal form: REPEAT unrolled, fused targets split, '
                'SHIFT_COORDS folded into detector coordinates (DESIGN 8.2); the multiset clause is read on the normal form before folding',
                'domain: operations with as many qubits as their class takes, distinct qubits on a two-qubit gate, qubit indices < 2^24, '
                'detector/observable record offsets in [-16777215,-1], repetition counts 0 <= n < 2^64; outside it only model = implementation is compared',
-               'that the unrolled listing is a permutation of the expanded listing is C06\'s; here the two exports are compared as exported',
-               'the memoised start times are cleared before every build/export (F1 is kept out of this comparison)']
+               'that the unrolled listing is a permutation of (library-built: equal to) the expanded listing is C06\'s; here the two exports are compared as exported',
+               'the memoised start times are cleared before every build/export']
 RULE = ('random build programs through DeclarativeCircuit.add over all 26 leaf classes (supported and unsupported), 1-4 qubits, nesting depth <= 3, '
         'repetition counts 1..3 (fixed or registry-provided), optional relation to an earlier sibling, detector/observable/shift arguments from a grid '
-        'incl. None, invalid offsets and every detector branch; plus repetition-code library circuits. Each case is built twice (as built / after '
-        'apply_modifiers). non-trivial: contains a sub-circuit, an annotation, or two exported operations that Stim fuses')
-LEVEL_TEXT = ('Coq theorems over the generated tables: the normal form of the modelled export is the instruction-by-instruction image of the expanded '
-              'listing (structural induction over the listing tree, through Stim\'s fusion and REPEAT arithmetic), measurement count, invariance of '
-              'the instruction multiset under permutation of the expanded listing, detector targets = record positions of the named measurements. '
-              'Correspondence: the model and the independent specification are evaluated by vm_compute against the real exporter on random programs.')
-LEVEL_NOTE = ('The walk and Stim\'s append/+=/*/flattened semantics are hand-written models tied by correspondence only; the listing order is taken from '
-              'the implementation. F11 (observable without target cannot be exported) is a known finding.')
-TECHNIQUE = 'Coq proof over translator-generated tables + randomised correspondence evaluated by vm_compute'
+        'incl. None, invalid offsets and every detector branch; each case is built twice (as built / after apply_modifiers). Library clause: '
+        'repetition-code circuits from random descriptions (chain or shipped layout sub-chain, refocusing on/off), initial states, 0..5 cycles and '
+        'duration settings (Lib/Run.v format), plus a few with the listing-tree model. non-trivial: contains a sub-circuit, an annotation, or two '
+        'exported operations that Stim fuses; library: >= 1 QEC cycle')
+LEVEL_TEXT = ('Machine-checked (Coq) over tables and annotation methods regenerated from the source: whenever the modelled export returns, its Stim '
+              'normal form is the expanded listing translated operation by operation, in order, unsupported kinds omitted and nothing added '
+              '(nested induction over the listing tree, through Stim\'s instruction fusion, `+=` seam fusion and REPEAT arithmetic); every emitted '
+              'instruction is the hand-written documented one (gate table, exactly its qubits, the five detector target shapes = record positions '
+              'of the named measurements, observables incl. the target-less one); one measurement per DispersiveMeasure; a rearranged expanded '
+              'listing exports the same instruction multiset and measurement count; equal expanded listings export the identical program. The model '
+              'is compared with the real exporter (raw instruction structure, stim\'s flattened(), num_measurements) on random programs over all 26 '
+              'classes, and the specification (not the model) judges the exporter\'s output incl. before/after apply_modifiers and library-built circuits.')
+LEVEL_NOTE = ('Trusted: Coq kernel, the ast translator (its output is re-proved equal to the hand-written documentation on every run), the hand-written '
+              'model of the walk and of Stim\'s append/+=/*/flattened semantics (tied by correspondence only). Listing order is taken from the '
+              'implementation; that unrolling permutes / preserves the expanded listing is C06\'s theorem, used here as a hypothesis and checked on '
+              'outputs. No axioms (Print Assumptions: closed).')
+TECHNIQUE = 'Coq proof (nested structural induction over the listing tree) over translator-generated tables + randomised correspondence evaluated by vm_compute'
 
 SINGLE = ['SingleQubitOperation', 'Reset', 'Wait', 'Identity', 'Hadamard', 'Rx180', 'Rx90', 'Rxm90', 'Ry180', 'Ry90', 'Rym90', 'Rx180ef',
           'VirtualPhase', 'VirtualPark', 'Rphi90', 'DispersiveMeasure', 'VirtualVacant', 'VirtualEmpty', 'DetectorOperation',
@@ -45,7 +56,6 @@ SUPPORTED = ['Reset', 'Barrier', 'Hadamard', 'Identity', 'CPhase', 'DispersiveMe
              'DetectorOperation', 'LogicalObservableOperation', 'CoordinateShiftOperation']
 CHANNELS = ['READOUT', 'MICROWAVE', 'FLUX', 'ALL']
 RELS = ['FOLLOWED_BY', 'JOINED_START', 'JOINED_END']
-KNOWN_OBS = 'observable annotation without a measurement target'
 
 
 # ----------------------------------------------------------------------------------------- generators
@@ -172,7 +182,7 @@ def corpus():
         {'k': 'tree', 'prog': [M(0), D(0, [None, 0, None, None, None])]},
         {'k': 'tree', 'prog': [{'op': 'CPhase', 'q': [1, 1]}]},
         {'k': 'lib', 'init': [0, 1, 0], 'cycles': 2},
-        # F11: an observable without (last_acquisition_index, main_target)
+        # F16 (fixed in 744f678): an observable without (last_acquisition_index, main_target)
         {'k': 'tree', 'prog': [M(0), {'op': 'LogicalObservableOperation', 'q': [0], 'a': [None, None]}]},
     ]
 
@@ -189,7 +199,15 @@ def gen_cases(rng, tier):
         [(list(i), c) for i in ([0], [0, 1], [1, 0], [0, 1, 0], [1, 1, 0, 1]) for c in (0, 1, 2, 3, 5)]
     for init, cyc in libs:
         cases.append({'k': 'lib', 'init': init, 'cycles': cyc})
+    # library clause (shared Lib/Run.v format): before / after unrolling the identical flattened program
+    for _ in range(20 if tier == 'quick' else 250):
+        c = libgen.gen_repcode(rng, max_d=3 if tier == 'quick' else 5, max_cycles=5 if tier == 'quick' else 8)
+        c['obs'] = ['structure', 'plain', 'unrolled']
+        cases.append(c)
     return cases
+
+
+LIBK = ('repcode', 'simplified', 'multi', 'calib')
 
 
 # ----------------------------------------------------------------------------------------- Coq literals
@@ -220,6 +238,12 @@ def c_expo(e):
 
 
 def to_coq(case, out):
+    if case['k'] in LIBK:
+        return f"(KLib {libgen.c_lcase(case, out)})"
+    return f"(KTree {tree_case(case, out)})"
+
+
+def tree_case(case, out):
     if 'a' not in out or 'tree' not in out['a']:
         return "(MkCase false [] EErr None)"      # building the circuit failed: disagrees with the model on purpose
     a, u = out['a'], out['u']
@@ -228,24 +252,18 @@ def to_coq(case, out):
 
 
 # ----------------------------------------------------------------------------------------- metadata
-def has_untargeted_observable(prog):
-    return any(l['op'] == 'LogicalObservableOperation' and (l['a'][0] is None or l['a'][1] is None) for l in leaves(prog))
-
-
-def known_class(case, out):
-    if case['k'] == 'tree' and has_untargeted_observable(case['prog']):
-        return KNOWN_OBS
-    return None
-
-
 def kind(case):
+    if case['k'] in LIBK:
+        return 'library:' + case['k']
     if case['k'] == 'lib':
-        return 'library'
+        return 'library-tree'
     d = depth(case['prog'])
     return 'flat' if d == 0 else f'nested-depth-{d}'
 
 
 def nontrivial(case, out):
+    if case['k'] in LIBK:
+        return case['cycles'] >= 1
     if case['k'] == 'lib':
         return True
     if depth(case['prog']) > 0:
@@ -258,6 +276,8 @@ def nontrivial(case, out):
 
 
 def sample(case, out):
+    if case['k'] in LIBK:
+        return {'library_input': case, 'stim_flat_plain': (out.get('plain') or {}).get('stim_flat', '')[:400]}
     a = out.get('a', {})
     return {'input': case, 'listing_tree': a.get('tree'), 'exported_raw': a.get('raw', a.get('error')),
             'after_unrolling_raw': out.get('u', {}).get('raw', out.get('u', {}).get('unroll_error'))}
@@ -315,6 +335,10 @@ def _variants(prog):
 
 
 def shrink_candidates(case):
+    if case['k'] in LIBK:
+        if case['cycles'] > 0:
+            yield dict(case, cycles=case['cycles'] - 1)
+        return
     if case['k'] != 'tree':
         return
     for v in _variants(copy.deepcopy(case['prog'])):
